@@ -267,6 +267,14 @@ class Fn:
 
     # -------------------------------------------------------------------------------- expressions
     def expr(self, e, env):
+        if isinstance(e, ast.Dict):
+            ks = [self.expr(x, env) if x is not None else None for x in e.keys]
+            vs = [self.expr(x, env) for x in e.values]
+            if any(x is None or x.t != INT or x.lo is None or x.lo != x.hi for x in ks + vs):
+                self.err(e, "dict display: only constant int keys and values are in the subset")
+            if len({x.lo for x in ks}) != len(ks):
+                self.err(e, "dict display with a repeated key")
+            return V("", "dict", rec=[(a.lo, b.lo) for a, b in zip(ks, vs)])
         if isinstance(e, ast.Constant):
             v = e.value
             if isinstance(v, bool):
@@ -555,6 +563,23 @@ class Fn:
             if a.n is not None:
                 return V("(Py.len %s)" % a.s, INT, a.n, a.n)
             return V("(Py.len %s)" % a.s, INT, 0, None)
+        if name == "int" and len(e.args) == 1 and isinstance(e.args[0], ast.BinOp) and isinstance(e.args[0].op, ast.Div) \
+           and not self.closed_float(e.args[0]):
+            # int(a / c) for ints a >= 0, c >= 1: a / c is the correctly rounded binary64 quotient; it cannot reach the
+            # next integer from below as long as a + c < 2^53 (the gap 1/c exceeds the rounding error (a/c) * 2^-53), and an
+            # exact integer quotient is exact; so int() of it is floor(a / c)
+            x, c = self.expr(e.args[0].left, env), self.expr(e.args[0].right, env)
+            if x.t != INT or c.t != INT:
+                self.err(e, "int(a / c) of non-ints")
+            if x.lo is None or x.lo < 0 or x.hi is None or c.lo is None or c.lo < 1 or c.hi is None or x.hi + c.hi >= FLT_LIMIT:
+                self.err(e, "int(a / c): cannot show a >= 0, c >= 1 and a + c < 2^53 (needed for the float quotient to "
+                            "truncate to the integer quotient); declare `ranges` in the SRC table")
+            self.notes.append("%s is the integer quotient: true division in binary64, exact to truncation because "
+                              "0 <= a, 1 <= c and a + c <= %d < 2^53 (checked from the declared ranges)" % (
+                                  self.mod.segment(e) or ast.unparse(e), x.hi + c.hi))
+            if c.lo == c.hi:
+                return self.binop(e, ast.FloorDiv(), x, c)
+            return V("(Py.floordiv %s %s)" % (x.s, c.s), INT, x.lo // c.hi, x.hi // c.lo)
         if name == "int" and len(e.args) == 1:
             if self.closed_float(e.args[0]):
                 val = eval(compile(ast.Expression(e), "<const>", "eval"), {"__builtins__": {"int": int, "round": round, "pow": pow}})
@@ -1036,6 +1061,14 @@ class Fn:
             v = self.binop(s, op, env[key], v)
         if v.t == "rec":
             self.err(s, "assigning an object is not in the subset")
+        if v.t == "dict":
+            # a constant dict is kept symbolically (no Lean value); the only use in the subset is `for k, v in d.items()`
+            if op is not None or key in env or self.loop:
+                self.err(s, "re-assignment / in-loop assignment of a dict is not in the subset")
+            if sum(1 for n in ast.walk(self.node) if isinstance(n, ast.Name) and n.id == key) != 2:
+                self.err(s, "the dict %s must be used exactly once, in `for k, v in %s.items()`" % (key, key))
+            env[key] = v
+            return self.block(rest, env, k)
         if key in env and self.ltype(env[key].t) != self.ltype(v.t):
             self.err(s, "variable %s changes type from %s to %s" % (key, env[key].t, v.t))
         # a sequence that is re-bound invalidates `index < len(seq)` facts about it
@@ -1157,15 +1190,32 @@ class Fn:
     def for_stmt(self, s, rest, env, k):
         if s.orelse:
             self.err(s, "for ... else is not in the subset")
-        if not isinstance(s.target, ast.Name):
-            self.err(s, "loop target must be a single name")
-        var = s.target.id
+        it = s.iter
+        pair = None
+        if isinstance(s.target, ast.Tuple) and len(s.target.elts) == 2 and all(isinstance(x, ast.Name) for x in s.target.elts) \
+           and isinstance(it, ast.Call) and isinstance(it.func, ast.Attribute) and it.func.attr == "items" and not it.args \
+           and not it.keywords and isinstance(it.func.value, ast.Name) and it.func.value.id in env \
+           and env[it.func.value.id].t == "dict":
+            # `for k, v in D.items()` over a constant dict: its (key, value) pairs in insertion order
+            pair = (s.target.elts[0].id, s.target.elts[1].id)
+            items = env[it.func.value.id].rec
+            for nm in pair:
+                if nm in env:
+                    self.err(s, "loop variable %s is already bound" % nm)
+            if pair[0] == pair[1]:
+                self.err(s, "loop target repeats a name")
+        elif not isinstance(s.target, ast.Name):
+            self.err(s, "loop target must be a single name (or `k, v` over the items of a constant dict)")
+        var = s.target.id if pair is None else self.tmp("kv")
         if var in env and var != "_":
             self.err(s, "loop variable %s is already bound (its value after the loop is not modelled)" % var)
-        it = s.iter
         asg = [n for n in self.assigned(s.body, env)]
+        if pair is not None:
+            asg = [n for n in asg if n not in pair]
         lv = None
-        if isinstance(it, ast.Call) and isinstance(it.func, ast.Name) and it.func.id == "range" and not it.keywords \
+        if pair is not None:
+            iters = "([%s] : List (Int × Int))" % ", ".join("(%s, %s)" % (lit(a), lit(b)) for a, b in items)
+        elif isinstance(it, ast.Call) and isinstance(it.func, ast.Name) and it.func.id == "range" and not it.keywords \
            and 1 <= len(it.args) <= 3:
             if "range" in self.locals or self.mod.binds("range"):
                 self.err(s, "the name range is re-bound in this function or module")
@@ -1191,7 +1241,7 @@ class Fn:
                     self.err(s, "range step must be a positive constant")
                 iters = "(Py.range3 %s %s %s)" % (args[0].s, args[1].s, args[2].s)
                 lv = V(lname(var), INT, args[0].lo, None if args[1].hi is None else args[1].hi - 1)
-        else:
+        elif pair is None:
             seq = self.expr(it, env)
             itk = it.id if isinstance(it, ast.Name) else (
                 it.value.id + "." + it.attr if isinstance(it, ast.Attribute) and isinstance(it.value, ast.Name) else None)
@@ -1224,7 +1274,10 @@ class Fn:
             dead = vv.ltlen & set(state)
             if dead and kk_ != "#own":
                 benv[kk_] = V(vv.s, vv.t, vv.lo, vv.hi, vv.n, vv.ltlen - dead, vv.elo, vv.ehi, vv.rec)
-        if var != "_":
+        if pair is not None:
+            benv[pair[0]] = V(lname(pair[0]), INT, min(a for a, _ in items), max(a for a, _ in items))
+            benv[pair[1]] = V(lname(pair[1]), INT, min(b for _, b in items), max(b for _, b in items))
+        elif var != "_":
             benv[var] = lv
         ends = []
         def kk(e2):
@@ -1251,7 +1304,7 @@ class Fn:
             self.loop -= 1
         env2 = dict(env)
         self.set_own(env2, self.own(env) & self.own(ends[0]) if ends else self.own(env))
-        for n in temps + [var]:
+        for n in temps + [var] + list(pair or ()):
             env2.pop(n, None)
         for n in state:
             env2[n] = benv[n]
@@ -1266,7 +1319,11 @@ class Fn:
             binder = "(%s : %s)" % (st_in, ty)
             unpack = self.unpack_tuple(st_in, state, env)
             st_out = self.tmp("st")
-        lam = "fun %s (%s : Int) =>\n%s" % (binder, lname(var) if var != "_" else "_", indent(unpack + body))
+        if pair is not None:
+            unpack += "let %s : Int := %s.1\nlet %s : Int := %s.2\n" % (lname(pair[0]), var, lname(pair[1]), var)
+            lam = "fun %s (%s : Int × Int) =>\n%s" % (binder, var, indent(unpack + body))
+        else:
+            lam = "fun %s (%s : Int) =>\n%s" % (binder, lname(var) if var != "_" else "_", indent(unpack + body))
         init = self.tuple_of(state, env)
         if mon:
             text = pre + "(List.foldlM (%s) %s %s : R (%s)) >>= fun %s =>\n" % (lam, init, iters, ty, st_out)
